@@ -106,14 +106,17 @@ claim("C12", "proof",
 claim("C13", "proof",
       "Lean 4 theorem (Props/C13.lean, mutual structural induction over every statement tree): statement conservation in program order "
       "— the statements of the lifted blocks concatenated in index order are exactly the source statements in pre-order, one branch "
-      "statement per if/while; nothing lost, duplicated or reordered. PARTIAL: the trace-inclusion clause is stated "
-      "(C13_trace_statement) but not yet proved for all programs; it is decided per instance: both executable semantics (source execution "
-      "ending at the first return; graph walk taking the recorded false target or the other successor) are evaluated on every real AST/CFG "
-      "pair (pre-SSA and SSA) under all 2^k decision sequences, and the parser's for/compound-assignment expansions are compared with "
-      "hand expansions.",
-      "Lean kernel + standard axioms; trace inclusion is exploration (bounded decision sequences) on the real CFGs; statements are identified by "
-      "source range.",
-      "Lean 4 proof (conservation in order) + exhaustive bounded trace comparison on real CFGs", "5 (C13)")
+      "statement per if/while; nothing lost, duplicated or reordered. Trace inclusion (C13_trace_inclusion, Lemmas/TracePaths.lean, mutual "
+      "induction over every statement tree with an inner induction on the loop fuel): for every program, every set of return locations and "
+      "every sequence of branch/loop decisions, the statements the source executes up to its first return are a prefix of the graph walk under "
+      "the same decisions, for every sufficiently large walk budget; the proof shows that paths are stable under all later construction steps "
+      "and that pending exits reach the block they get connected to. Tie to the code (and the concrete budget of the executable walk): both "
+      "executable semantics (source execution ending at the first return; graph walk taking the recorded false target or the other successor) "
+      "are evaluated on every real AST/CFG pair (pre-SSA and SSA) under all 2^k decision sequences, the model CFG is compared with the real one "
+      "(C12), and the parser's for/compound-assignment expansions are compared with hand expansions.",
+      "Lean kernel + standard axioms; the theorem is about the model of lifting (tied by CFG equality in C12) and the unbounded walk; statements are "
+      "identified by source range, kind and declared/assigned name.",
+      "Lean 4 proof (conservation in order; trace inclusion for all programs and decision sequences) + exhaustive bounded trace comparison on real CFGs", "5 (C13)")
 
 claim("C10", "proof",
       "Lean 4 theorems (Props/C10.lean) for every well-nested event sequence (any nesting of blocks, any redeclaration pattern, any "
